@@ -34,7 +34,7 @@ ASSUMPTIONS = ["subscription identity = (service, instance, major version, event
 FLOORS = {"quick": {"histories": 25000, "exhaustive_core_histories": 20000, "random_histories": 3000, "idle_truth_checks": 250000,
                     "alternation_events": 50000, "acks_judged": 80000, "positive_acks": 40000, "negative_acks": 15000,
                     "rejected_subscriptions": 5000, "policy_changes": 3000, "same_iteration_placements": 20000, "deadline_before_placements": 4000,
-                    "deadline_after_placements": 4000, "reboot_with_subscribe_messages": 3000,
+                    "deadline_after_placements": 4000, "reboot_with_subscribe_messages": 3000, "twin_listener_scenarios": 700, "twin_listener_events": 8000,
                     "mesh_scenarios": 100, "mesh_final_checks_offerer": 90, "mesh_alternation_events": 600}}
 # system-level shards: the mesh workload of pv/mesh.py under this property's boundary monitors (reports of other monitors are dropped)
 MESH = {"want": ("converge",), "claim": ("mesh:offerer-does-not-converge", "mesh:subscription-listener-history"),
@@ -538,15 +538,117 @@ def count_placements(ctx, seq):
             ctx.count("within_resolution_before_deadline_placements")
 
 
+# ------------------------------------------------------------------------------------- one service, two listeners
+def twin_listeners(ctx, seed, replay):
+    """The same service description announced twice, each time with its own listener (the repository's tests do this): every
+    Subscribe / StopSubscribe / reboot / expiry concerns both records, so the two listeners must be told exactly the same, each
+    history alternates, and at the end each listener's last word is 'subscribed' exactly for the subscriptions still live."""
+    import someip.config as C
+    import someip.sd as S
+
+    rng = random.Random("twins" + str(seed))
+    h = Harness(random.Random(seed), max_iterations=100000)
+    ct = rng.choice((0, 2.0 ** -8))
+    tm = net.timings(INITIAL_DELAY_MIN=0, INITIAL_DELAY_MAX=0, REPETITIONS_MAX=0, CYCLIC_OFFER_DELAY=0, SEND_COLLECTION_TIMEOUT=ct)
+    prot, tr = net.make_sd(h.loop, ("10.0.6.100", 30490), timings=tm)
+    logs = {1: [], 2: []}
+
+    def listener(n):
+        class L(S.ServerServiceListener):
+            def client_subscribed(self, sub, source):
+                logs[n].append((h.loop.time(), "subscribed", source, sub.id))
+
+            def client_unsubscribed(self, sub, source):
+                logs[n].append((h.loop.time(), "unsubscribed", source, sub.id))
+
+        return L()
+
+    svc = C.Service(0x3003, 1, 1, 0, eventgroups=frozenset({1, 2}))
+    insts = [S.ServiceInstance(svc, listener(n), prot.announcer, tm) for n in (1, 2)]
+
+    def setup():
+        for i in insts:
+            prot.announcer.announce_service(i)
+        prot.announcer.start()
+
+    h.at(0.0, setup)
+    subs = [SUBS["A"], SUBS["C"]]
+    sess = {a: net.PeerSession() for a in subs}
+    live = {}  # (addr, eg) -> deadline
+    t = 0.5
+    script = []
+    for k in range(rng.randrange(4, 22)):
+        t += rng.choice((2.0 ** -6, 0.125, 0.5, 0.75, 1.5)) + 2.0 ** -12
+        a = rng.choice(subs)
+        eg = rng.choice((1, 2))
+        ep = [refwire.ep4("10.0.6.1", 4000)] if a == subs[0] else [refwire.ep6("2001:db8::6", 4000)]
+        for key in [key for key, d in live.items() if d <= t]:
+            del live[key]
+        r = rng.random()
+        if r < 0.45:
+            ttl = rng.choice((2, 2, FOREVER))
+            ents, what = [net.subscribe(0x3003, 1, 1, eg, ttl, o1=ep)], "sub"
+            live[(a, eg)] = math.inf if ttl == FOREVER else t + ttl
+        elif r < 0.7:
+            ents, what = [net.subscribe(0x3003, 1, 1, eg, 0, o1=ep)], "stop"
+            live.pop((a, eg), None)
+        elif r < 0.88:
+            ents, what = [net.subscribe(0x3003, 1, 1, eg, 0, o1=ep), net.subscribe(0x3003, 1, 1, eg, 2, o1=ep)], "stop+sub"
+            live[(a, eg)] = t + 2
+        else:
+            sess[a].reboot()
+            ents, what = [net.find(0x7777)], "reboot"
+            for key in [key for key in live if key[0] == a]:
+                del live[key]
+        fl, sid = sess[a].next()
+        script.append((round(t, 6), what, a, eg))
+        h.at(t, prot.datagram_received, net.sd_bytes(ents, sid, reboot=fl), a, False)
+    t_end = t + 0.5 + 2.0 ** -12 * 40
+    for key in [key for key, d in live.items() if d <= t_end]:
+        del live[key]
+    h.run(t_end)
+    problems = h.problems(allowed_logged=("ParseError", "IncompleteReadError", "NakSubscription"))
+    h.close()
+    ctx.count("twin_listener_scenarios")
+    ctx.count("twin_listener_events", len(logs[1]) + len(logs[2]))
+    detail = dict(script=script[:24], collection_timeout=ct)
+    for p in problems:
+        ctx.violation("unexpected-exception-during-run", dict(problem=p, **detail), replay)
+    if logs[1] != logs[2]:
+        i = next((i for i, (x, y) in enumerate(itertools.zip_longest(logs[1], logs[2])) if x != y), 0)
+        ctx.violation("two-listeners-of-one-service-are-told-different-things",
+                      dict(first_difference=i, listener_1=logs[1][i:i + 3], listener_2=logs[2][i:i + 3], **detail), replay)
+    for n in (1, 2):
+        last = {}
+        for tt, kind, src, egid in logs[n]:
+            key = (src, egid)
+            if last.get(key, "unsubscribed") == kind:
+                ctx.violation("subscription-history-not-alternating:" + kind + "-twice", dict(listener=n, key=key, at=tt, **detail), replay)
+                break
+            last[key] = kind
+        said = {key for key, kind in last.items() if kind == "subscribed"}
+        if said != set(live):
+            ctx.violation("listener-says-subscribed-but-subscription-not-live" if said - set(live) else "live-acknowledged-subscription-not-held",
+                          dict(listener=n, says=sorted(said), live=sorted(live), **detail), replay)
+    return len(script) > 6
+
+
 def shards(tier, seed):
     n = 16
     out = [dict(shard=i, nshards=n, seed=seed, mode="core", length=3 if tier == "quick" else 4,
                 sample=None if tier == "quick" else 0.02) for i in range(n)]
     out += [dict(shard=100 + i, seed=seed, mode="random", n=300 if tier == "quick" else 40000) for i in range(n)]
+    out += [dict(shard=200 + i, seed=seed, mode="twins", n=400 if tier == "quick" else 30000) for i in range(2)]
     return out
 
 
 def run(spec, ctx):
+    if spec["mode"] == "twins":
+        base = f"C06twins/{spec['seed']}/{spec['shard']}"
+        for i in range(spec["n"]):
+            nt = twin_listeners(ctx, f"{base}/{i}", dict(kind="twins", seedkey=f"{base}/{i}"))
+            ctx.case(("twins", i), nt)
+        return
     if spec["mode"] == "core":
         rng = random.Random(f"C06core/{spec['seed']}/{spec['shard']}")
         shown = 0
@@ -575,6 +677,10 @@ def run(spec, ctx):
 
 
 def replay(doc, ctx):
+    if doc["kind"] == "twins":
+        twin_listeners(ctx, doc["seedkey"], doc)
+        ctx.case(("replay",), True)
+        return
     if doc["kind"] == "core":
         seq = tuple(tuple(x) for x in doc["seq"])
         judge(ctx, replay_builder(seq), "core", doc, True, doc["collect"])
